@@ -51,8 +51,8 @@ func TestResFaults(t *testing.T) {
 	s := NewStream("resfaults")
 	defer s.Close()
 	var cases []resCase
-	for _, fn := range []string{"ping", "sendmsg", "catch", "server"} {
-		answers := map[string][]string{"ping": {"none", "foreign", "noise"}, "sendmsg": {"none"}, "catch": {"none", "pass", "junk"}, "server": {"none", "foreign"}}[fn]
+	for _, fn := range []string{"ping", "sendmsg", "sendrenew", "catch", "server"} {
+		answers := map[string][]string{"ping": {"none", "foreign", "noise"}, "sendmsg": {"none"}, "sendrenew": {"foreign", "none"}, "catch": {"none", "pass", "junk"}, "server": {"none", "foreign"}}[fn]
 		for _, a := range answers {
 			cases = append(cases, resCase{fn: fn, cancelAt: -1, answer: a})
 			for n := 1; n <= 6; n++ {
@@ -119,6 +119,15 @@ func runResCase(t *testing.T, s *Stream, c resCase) {
 	case "ping":
 		go func() {
 			_, err := arpping.Ping(ctx, iface, net.IPv4(10, 0, 0, 1), target)
+			returnedAt = time.Since(t0)
+			done <- fmt.Sprint(err == nil)
+		}()
+	case "sendrenew": // the renewing template: an ARP lookup of the server, then a unicast socket (or the broadcast fallback)
+		target = net.IPv4(10, 0, 0, 1)
+		f, _ := msgtmpl.RequestRenewing(iface, net.IPv4(10, 0, 0, 77), target)
+		longRunning = true
+		go func() {
+			err := dclient.VerifSendMessage(ctx, iface, f)
 			returnedAt = time.Since(t0)
 			done <- fmt.Sprint(err == nil)
 		}()
